@@ -35,8 +35,12 @@ EXTENDS CffCodec, Json
 
 CONSTANT Thorough
 
-VARIABLES kind, idx
-vars == <<kind, idx>>
+\* `done`: the case is picked by the one step of the behaviour, not by Init.  TLC computes initial states (and
+\* checks the invariants on them) in its main thread, single-threaded and with the small default stack of that
+\* thread (-Xss given through JAVA_TOOL_OPTIONS does not reach it): under load the 64 KiB DICT values overflowed
+\* it now and then.  Successor states are evaluated by the worker threads: in parallel, with the stack -Xss asks for.
+VARIABLES kind, idx, done
+vars == <<kind, idx, done>>
 
 B4x(a, b, c, d) == <<a, b, c, d>>
 U32s == <<B4x(0, 0, 0, 0), B4x(127, 255, 255, 255), B4x(128, 0, 0, 0), B4x(255, 255, 255, 255), B4x(1, 2, 3, 4)>>
@@ -580,7 +584,10 @@ CffCidTopOf(L) == [CffCidBase EXCEPT !.top = @ \o Pad(14, L - 36)]
 DictLens == <<250, 251, 252, 253, 254, 255, 256, 257, 258, 259, 260>>
 BigLens  == IF Thorough THEN <<65530, 65531, 65532, 65533, 65534, 65535, 65536, 65537, 65538, 65539, 65540>>
             ELSE <<65533, 65534, 65535, 65536>>
-IdxDatas == <<254, 255, 256, 65534, 65535, 65536>>
+BigDict  == IF Thorough THEN BigLens ELSE <<65535, 65536>>       \* quick: the second size-class edge of the Top DICT INDEX in
+                                                                 \* full, of the other DICTs on both sides only
+IdxDatas == <<254, 255, 256>>
+IdxBig   == <<65534, 65535, 65536>>
 Two(n, c) == <<Obj(n - 100, c), Obj(100, c + 1)>>           \* two objects with n bytes of data together
 CffStrN(k) ==     \* k strings; the Top DICT names SIDs on both sides of the first custom one
   [CffBase EXCEPT !.strs = [i \in 1 .. k |-> Str(3 + i, 40 * i)],
@@ -591,14 +598,19 @@ CfftVals ==
     [CffBase EXCEPT !.ls = <<>>], [CffBase EXCEPT !.gs = <<>>], [CffBase EXCEPT !.strs = <<>>, !.top = <<DE(2, <<I(390)>>)>>]>>
   \o [i \in 1 .. Len(DictLens) |-> CffTopOf(DictLens[i])] \o [i \in 1 .. Len(BigLens) |-> CffTopOf(BigLens[i])]
   \o [i \in 1 .. Len(DictLens) |-> CffPrivOf(DictLens[i], TRUE)] \o [i \in 1 .. Len(DictLens) |-> CffPrivOf(DictLens[i], FALSE)]
-  \o [i \in 1 .. Len(BigLens) |-> CffPrivOf(BigLens[i], (i % 2) = 0)]
+  \o [i \in 1 .. Len(BigDict) |-> CffPrivOf(BigDict[i], (BigDict[i] % 2) = 0)]
   \o [i \in 1 .. Len(DictLens) |-> CffFdOf(DictLens[i], 1)] \o [i \in 1 .. Len(DictLens) |-> CffFdOf(DictLens[i] - 15, 2)]
-  \o [i \in 1 .. Len(BigLens) |-> CffFdOf(BigLens[i] - 15, 1 + (i % 2))]
+  \o [i \in 1 .. Len(BigDict) |-> CffFdOf(BigDict[i] - 15, 1 + (i % 2))]
   \o [i \in 1 .. Len(DictLens) |-> CffCidTopOf(DictLens[i])]
   \o [k \in 1 .. 4 |-> CffStrN(k - 1)]
   \o Cat([i \in 1 .. Len(IdxDatas) |-> LET n == IdxDatas[i] IN
         <<[CffBase EXCEPT !.gs = Two(n, 7)], [CffBase EXCEPT !.ls = Two(n, 9)], [CffBase EXCEPT !.cs = Two(n, 11)],
           [CffBase EXCEPT !.strs = Two(n, 13)], [CffCidBase EXCEPT !.fds[1].ls = Two(n, 15)]>>])
+  \* 64 KiB INDEXes: the neighbours of the reserved Top DICT INDEX always, the others in the thorough tier
+  \o Cat([i \in 1 .. Len(IdxBig) |-> LET n == IdxBig[i] IN
+        <<[CffBase EXCEPT !.gs = Two(n, 7)], [CffBase EXCEPT !.strs = Two(n, 13)]>>
+        \o (IF Thorough THEN <<[CffBase EXCEPT !.ls = Two(n, 9)], [CffBase EXCEPT !.cs = Two(n, 11)],
+                                [CffCidBase EXCEPT !.fds[1].ls = Two(n, 15)]>> ELSE <<>>)])
   \o <<[CffBase EXCEPT !.names = <<Str(254, 1)>>], [CffBase EXCEPT !.names = <<Str(255, 1)>>]>>
 \* what the driver classifies (sizes, computed here, not in the harness)
 CfftSizes(v) ==
@@ -628,8 +640,9 @@ Vals(k) ==
     [] k = "ivs" -> IvsVals \o IvsPos [] k = "ivd" -> IvdVals [] k = "ivr" -> IvrVals [] k = "cfft" -> CfftVals
 NVals == [i \in 1 .. Len(Kinds) |-> Len(Vals(Kinds[i]))]
 
-Init == \E i \in 1 .. Len(Kinds) : kind = Kinds[i] /\ idx \in 1 .. NVals[i]
-Next == UNCHANGED vars
+Init == kind = "" /\ idx = 0 /\ done = FALSE
+Next == /\ ~done /\ done' = TRUE
+        /\ \E i \in 1 .. Len(Kinds) : kind' = Kinds[i] /\ idx' \in 1 .. NVals[i]
 Spec == Init /\ [][Next]_vars
 
 V == Vals(kind)[idx]
@@ -693,7 +706,7 @@ Case ==
   ELSE \* ivs
     [k |-> kind, id |-> idx, v |-> v, src |-> EncIVS(v), exp |-> OkExp(EncIVS(v), v)]
 
-EmitCase == PrintT(<<"CASE", ToJson(Case)>>)
+EmitCase == done => PrintT(<<"CASE", ToJson(Case)>>)
 
 ---------------------------------------------------------------------------
 \* laws of the specification itself
@@ -766,6 +779,7 @@ PackedOKc(v) ==
   /\ EncGlyph(NormGlyph(v)) = EncGlyph(v)
 
 CodecOK ==
+  done =>
   IF kind \in TableKinds THEN TableOK(kind, V)
   ELSE IF kind = "glyphp" THEN PackedOKc(V)
   ELSE IF kind = "cffint" THEN IntOK(V)
